@@ -966,8 +966,18 @@ class Deferred(Awaitable[_SelfResultT]):
                 # callback or errback.
                 self.errback(Failure(CancelledError()))
         elif isinstance(self.result, Deferred):
-            # Waiting for another deferred -- cancel it instead.
-            self.result.cancel()
+            # Waiting for another deferred -- cancel it instead.  Follow the
+            # chain of Deferreds waiting on each other with a loop rather
+            # than by recursion, so that the stack used does not depend on
+            # the length of the chain.
+            waitedOn = self.result
+            while (
+                waitedOn.called
+                and isinstance(waitedOn.result, Deferred)
+                and type(waitedOn).cancel is Deferred.cancel
+            ):
+                waitedOn = waitedOn.result
+            waitedOn.cancel()
 
     def _startRunCallbacks(self, result: object) -> None:
         if self.called:
